@@ -20,7 +20,7 @@ RULE = ('edit histories of 1-30 operations over up to 6 graph variables (SSA: co
         'and 7 plain node objects plus nested graphs (empty ones too): add_node, remove_node, add_dependency, '
         'remove_dependency, merge, copy, invert, +, graft, flatten, transitive_reduction/closure, followed by every '
         'query (nodes, dependencies direct/recursive, dependees, topological_sort, initial, terminal, depends, <=, ==); '
-        'thorough adds every digraph on <= 4 nodes x every single operation and query; non-trivial = a graph with '
+        '25% of the cases: one DAG on 4-6 nodes built in a random order, reduced / closed in place with queries before, between and after; thorough adds every digraph on <= 4 nodes x every single operation and query and every forward DAG on 5 nodes x reduction and closure; non-trivial = a graph with '
         '>= 3 nodes and >= 2 edges was edited by a removal, merge, inversion or graft; distinct = case hash')
 CORRESPONDS = ('Model/DepGraph.lean (RList, G.addNode/removeNode/addDep/removeDep/merge/copy/invert/graft/flattenLoop/'
                'transitiveReduction/transitiveClosure/topologicalSort/dependencies/dependees/initial/terminal/le/eqv) vs '
